@@ -42,7 +42,7 @@ SW = sw_configs()
 N_SW = len(SW)
 TIERS = {"quick": {"cases": N_SW + 6000}, "thorough": {"cases": N_SW + 200000}}
 FLOORS = {"quick": {"swv_configs": N_SW, "strided_bounds_checks": 2000, "layer_compared": 2500, "validity_checks": 3000},
-          "thorough": {"swv_configs": N_SW, "strided_bounds_checks": 60000, "layer_compared": 90000, "validity_checks": 100000}}
+          "thorough": {"swv_configs": N_SW, "strided_bounds_checks": 10000, "layer_compared": 12500, "validity_checks": 15000}}
 LAYER_KINDS = ["conv", "conv", "conv", "pool", "pool", "batchnorm", "softmax", "loss", "loss", "gru_slot"]
 
 
